@@ -24,8 +24,8 @@ RULE = ("Hypothesis draws pixel series (n 3..400) as quantile transforms of gene
         "the Phi^-1 amplification); float32 inputs: interval oracle over the alpha range implied by single-precision logarithms. "
         "Cells with |reference| > 7000 are left to C08. Non-trivial: zeros, nodata, proper sub-window, shape outside [0.5,2] or ties; "
         "distinct by content hash.")
-ASSUME = ["scipy.special gammainc / ndtri / digamma (also bound into the compiled code: C13 checks the binding, an mpmath "
-          "second opinion is taken when mpmath is importable)", "scipy.optimize.brentq"]
+ASSUME = ["scipy.special gammainc / ndtri / digamma (also bound into the compiled code: C13 checks the binding; sub-check 'oracle' "
+          "re-evaluates the reference itself with 40-digit mpmath when mpmath is importable - setup_cmd installs it into .deps)", "scipy.optimize.brentq"]
 
 
 def _arrays(case):
@@ -180,7 +180,40 @@ def sub_spi(case, rec=None):
     return _compare("spi()", res.transpose("y", "x", "time").values[0, 0], x, ok, nd, win, case, rec)
 
 
-SUBS = {"fit": sub_fit, "spi": sub_spi}
+def sub_oracle(case):
+    """Second opinion on the oracle itself: the SciPy special functions it relies on (digamma in the root equation, the regularised
+    incomplete gamma function, the inverse normal CDF) against 40-digit mpmath evaluations at the parameters of this case."""
+    try:
+        import mpmath as mp
+    except ImportError:
+        return "mpmath_unavailable"
+    x, ok, nd = _arrays(case)
+    win = _window(case, x.size)
+    ref = refs.spi_reference(x.astype(np.float64), ok, win)
+    if ref["fittable"] is not True:
+        return "outside_c07"
+    mp.mp.dps = 40
+    a, b, p0 = mp.mpf(ref["alpha"]), mp.mpf(ref["beta"]), mp.mpf(ref["p0"])
+    # the root: log(a) - digamma(a) == s to the accuracy alpha is claimed to
+    s_mp = mp.log(a) - mp.digamma(a)
+    req(abs(float(s_mp) - ref["s"]) <= 1e-12 * max(1.0, abs(ref["s"])) + 2 * ref["alpha_rel_tol"] * ref["s"],
+        "oracle: log(a)-digamma(a) at the SciPy root a=%r is %r in mpmath, s=%r" % (ref["alpha"], float(s_mp), ref["s"]), "oracle digamma/root")
+    usable = np.nonzero(ref["usable"])[0]
+    for i in usable[:: max(1, len(usable) // 6)]:
+        v = ref["index"][i]
+        if not np.isfinite(v) or abs(v) > 7000:
+            continue
+        prob = p0 + (1 - p0) * mp.gammainc(a, 0, mp.mpf(float(x[i])) / b, regularized=True)
+        if prob <= 0 or prob >= 1:
+            continue
+        z = mp.sqrt(2) * mp.erfinv(2 * prob - 1)
+        tau = float(refs.spi_tie_width(np.array([v]), ref["alpha"], ref["alpha_rel_tol"])[0])
+        req(abs(float(1000 * z) - v) <= tau, "oracle: SciPy gives 1000*z = %.9f, mpmath %.9f for x=%r (alpha=%r, beta=%r, p0=%r)" % (
+            v, float(1000 * z), float(x[i]), ref["alpha"], ref["beta"], ref["p0"]), "oracle gammainc/ndtri")
+    return None
+
+
+SUBS = {"fit": sub_fit, "spi": sub_spi, "oracle": sub_oracle}
 
 _u = st.floats(1e-6, 1 - 1e-6)
 
@@ -273,3 +306,11 @@ def run(ctx):
                       "window" if case.get("window") else "full"])
 
     ctx.given("spi", pixel(ctx.n(150, 400)), ctx.n(1500, 20000), fn=f_spi)
+
+    def f_or(case):
+        why = sub_oracle(case)
+        if why:
+            rec.discard("oracle", why)
+        rec.case("oracle", case, nontrivial=why is None, cls=["kind:" + case["kind"]])
+
+    ctx.given("oracle", pixel(60), ctx.n(120, 1500), fn=f_or, shrink=False)
